@@ -217,7 +217,23 @@ def hetero_residue(txt, resnum, newname):
     return '\n'.join(out) + '\n'
 
 
-def mk_complement(name, rotation=None, keep=False, hetero=None):
+def icode_run(txt):
+    """the second and third residue get the number of the first one plus insertion codes A and B (1, 1A, 1B, 2, ... numbering)"""
+    out, seen = [], []
+    for l in txt.split('\n'):
+        if l.startswith('ATOM'):
+            k = l[22:27]
+            if k not in seen:
+                seen.append(k)
+            i = seen.index(k)
+            if i in (1, 2):
+                l = l[:22] + seen[0][:4] + 'AB'[i - 1] + l[27:]
+        if l:
+            out.append(l)
+    return '\n'.join(out) + '\n'
+
+
+def mk_complement(name, rotation=None, keep=False, hetero=None, icodes=False):
     def body(ctx):
         """complete residues with regular geometry get the full complement;
         every added hydrogen has exactly one (heavy) neighbour at the tabulated
@@ -235,7 +251,7 @@ def mk_complement(name, rotation=None, keep=False, hetero=None):
             from .c04 import with_hydrogens_text
             mol = M.run(with_hydrogens_text(name), args=['--keep-protons'], transform=tr)
         else:
-            mol = M.run(hetero_residue(M.text(name), *hetero) if hetero else M.text(name), transform=tr)
+            mol = M.run(hetero_residue(M.text(name), *hetero) if hetero else (icode_run(M.text(name)) if icodes else M.text(name)), transform=tr)
         conf = mol.conformations['1A']
         first_res = min(a.res_num for a in conf.atoms)
         for g in conf.groups:
@@ -249,9 +265,17 @@ def mk_complement(name, rotation=None, keep=False, hetero=None):
                 n = g.atom
                 linked = [o for o in conf.atoms if o.element != 'H' and (o.res_num, o.icode, o.chain_id) != (n.res_num, n.icode, n.chain_id)
                           and (o.x - n.x) * (o.x - n.x) + (o.y - n.y) * (o.y - n.y) + (o.z - n.z) * (o.z - n.z) < 4.0]
-                if g.atom.res_name == 'PRO' or g.atom.res_num == first_res or not linked:
-                    continue      # proline, the first residue, or the residue after a chain break (no peptide bond: a free NH2)
+                if g.atom.res_name == 'PRO' or not linked:
+                    continue      # proline, or no peptide bond to this nitrogen in the input (chain start, chain break): a free amine
             ctx.claim('full-complement[%s]' % g.type, nh == exp, detail='%s: %d hydrogens (expected %d)' % (g.label, nh, exp))
+        # atom level, whatever group the nitrogen was given: a peptide-bonded backbone nitrogen carries exactly one hydrogen
+        for n in conf.atoms:
+            if n.name == 'N' and n.type == 'atom' and n.res_name != 'PRO':
+                linked = [o for o in conf.atoms if o.element != 'H' and (o.res_num, o.icode, o.chain_id) != (n.res_num, n.icode, n.chain_id)
+                          and (o.x - n.x) * (o.x - n.x) + (o.y - n.y) * (o.y - n.y) + (o.z - n.z) * (o.z - n.z) < 4.0]
+                if linked:
+                    nh = len([b_ for b_ in n.bonded_atoms if b_.element == 'H'])
+                    ctx.claim('peptide-bonded-nitrogen-has-one-hydrogen', nh == 1, detail='%s %d%s %s: %d hydrogens' % (n.res_name, n.res_num, n.icode.strip(), n.chain_id, nh))
         for a in conf.atoms:
             if a.element == 'H':
                 ctx.claim('exactly-one-neighbour', len(a.bonded_atoms) == 1 and a.bonded_atoms[0].element != 'H')
@@ -301,6 +325,10 @@ def obligations(tier):
                               bounds='micro-structure %s under a symbolic grid translation t in [0,2.509] along x; whole pipeline' % name,
                               claim_doc='His 2, Arg 5, Asn/Gln 2, Trp 1, amide 1 (not Pro / first residue); each H has one heavy neighbour at the tabulated length +-0.0009; H on one atom >= 0.5 A apart',
                               max_paths=5000, wall_s=170 if tier == 'quick' else 1200))
+    for name in (['pep8'] if tier == 'quick' else ['pep8', 'tri_HIS', 'pair_GLU_ARG_TYR']):
+        obs.append(Obligation('O3-complement-and-placement[%s,numbered n nA nB ...]' % name, mk_complement(name, icodes=True), code=pipe + ['propka/input.py:get_atom_lines_from_pdb'],
+                              bounds='%s with its second and third residue numbered like the first plus insertion codes A, B; symbolic grid translation' % name,
+                              claim_doc='as O3: the insertion-coded residues after the chain start are ordinary internal residues (one amide hydrogen)', max_paths=5000, wall_s=170))
     for name, het in ([('pep8', (28, 'ABA'))] if tier == 'quick' else [('pep8', (28, 'ABA')), ('pep8', (31, 'TPO')), ('pair_GLU_ARG_TYR', (35, 'CGU'))]):
         obs.append(Obligation('O3-complement-and-placement[%s,%d as HETATM %s]' % (name, het[0], het[1]), mk_complement(name, hetero=het), code=pipe + ['propka/hydrogens.py:setup_bonding'],
                               bounds='%s with residue %d written as a modified residue (HETATM records, residue name %s), symbolic grid translation' % (name, het[0], het[1]),
